@@ -56,7 +56,9 @@ def normalise_model(ans):
             return "f:" + float(Fraction(m.group(1))).hex()
         except (OverflowError, ValueError, ZeroDivisionError):
             return "f:?"
-    return re.sub(r"f:(-?\d+(?:/\d+)?)", repl, ans)
+    out = re.sub(r"f:(-?\d+(?:/\d+)?)", repl, ans)
+    # a decimal beyond the range of doubles (float() gives inf): the model holds finite values only
+    return "outside" if "f:?" in out else out
 
 
 def model_line(src):
@@ -67,7 +69,7 @@ def model_line(src):
 
 ATOMS = ['A', 'B1', '_x', 'Cmd', 'True', 'False', '5', '-3', '+7', '007', '1.5', '.5', '2.', '-1.e3', '1e5', '"s"', "'t'", '"a b"', '"a\\nb"', 'x.y', 'é',
          'a-b', '/p/q.txt', '%z', '=', '=', '(', ')', '(', ')', '[', ']', ',', ',', ':', ' ', ' ', '\n', '\t', '# c\n', '\r\n', '"', "'", '\\', '"q\\""',
-         '5abc', '1.5x', '- ', '.', '"é☃"', "'\\t\\x41\\u00e9'", '"\\q"', '"\\x4"', "'a\\\nb'", '"multi\nline"', '1.50', '0.10', '12.', '☃', '\r', '-0.', '-0.0', '-.0', '-0e3', '-0', '+0.0', '0.', '-0.0e-2']
+         '5abc', '1.5x', '- ', '.', '"é☃"', "'\\t\\x41\\u00e9'", '"\\q"', '"\\x4"', "'a\\\nb'", '"multi\nline"', '1.50', '0.10', '12.', '☃', '\r', '-0.', '-0.0', '-.0', '9007199254740993', '777777777777777777777777777777777777777777777777777777777777777777777777777777777777777777777777777777777777777777777777777777777777777777777777777777777777777777777777777777777777777777777777777777777777777777777777777777777777777777777777777777777777777777777777777777777777777777777777777777777777777777777777777777777777777777', '-0e3', '-0', '+0.0', '0.', '-0.0e-2']
 
 
 def rand_tokens(rng):
